@@ -118,3 +118,33 @@ func init() {
 		return map[string]interface{}{"res": hex.EncodeToString([]byte(r))}, nil
 	})
 }
+
+func init() {
+	// escapeRead: hex text pieces -> what escapeNl makes of the text, and what the real reader
+	// reads back from  Pre+escapeNl(T)+"\n"+Rest
+	register("escapeRead", func(raw json.RawMessage) (interface{}, error) {
+		var a struct{ Pre, T, Rest string }
+		if err := json.Unmarshal(raw, &a); err != nil {
+			return nil, err
+		}
+		pre, err := hex.DecodeString(a.Pre)
+		if err != nil {
+			return nil, err
+		}
+		t, err := hex.DecodeString(a.T)
+		if err != nil {
+			return nil, err
+		}
+		rest, err := hex.DecodeString(a.Rest)
+		if err != nil {
+			return nil, err
+		}
+		esc := cmd.VerifEscapeNl(string(t))
+		lines, starts, e := cmd.VerifReadLogicalLines(string(pre) + esc + "\n" + string(rest))
+		hl := make([]string, len(lines))
+		for i, l := range lines {
+			hl[i] = hex.EncodeToString([]byte(l))
+		}
+		return map[string]interface{}{"esc": hex.EncodeToString([]byte(esc)), "lines": hl, "starts": starts, "err": e}, nil
+	})
+}
